@@ -17,6 +17,7 @@ directory keeps a table-group load at ~1 ms so that all histories of length 3 (t
 A second part uses the real bundled tables at the real limit of 50 cached groups: more than 50 distinct
 groups (36 versions x 2 roots) are loaded in rotated orders before the probes.
 """
+from mc import REPO
 import contextlib
 import io
 import itertools
@@ -240,7 +241,7 @@ def golden_main(argv):
 
 def goldens(root):
     out = []
-    env = dict(os.environ, PYTHONPATH='/repo:' + VERIF)
+    env = dict(os.environ, PYTHONPATH=REPO + ':' + VERIF)
     procs = [subprocess.Popen([sys.executable, '-m', 'mc.checks.c13', 'golden', root, str(k)], cwd=VERIF, env=env,
                               stdout=subprocess.PIPE, stderr=subprocess.PIPE, text=True) for k in range(len(ops()))]
     for k, pr in enumerate(procs):
